@@ -78,6 +78,7 @@ table! {
     c13::h_patch,
     c13::h_patch_algs,
     c13::h_names,
+    c13::h_vectors,
     c12::h_verify,
     c12::h_find,
     c20::h_iterate,
